@@ -95,7 +95,7 @@ func cloneCase(c *StreamCase) *StreamCase {
 	out := &StreamCase{Options: c.Options}
 	out.Batches = make([]Batch, len(c.Batches))
 	for i, b := range c.Batches {
-		out.Batches[i] = Batch{Signal: b.Signal, Proto: append([]byte(nil), b.Proto...)}
+		out.Batches[i] = Batch{Signal: b.Signal, Proto: append([]byte(nil), b.Proto...), Synth: b.Synth}
 	}
 	return out
 }
